@@ -397,11 +397,17 @@ class Interp:
                 return False
             return b_and(*[self.eq(x, y) for x, y in zip(a, b)])
         if isinstance(a, SList) and isinstance(b, SList):
-            if len(a.items) == 1 and a.items[0] is V.PENDING:
-                a.items = list(b.items)        # defining equation of a havocked trace
-                return True
-            if len(b.items) == 1 and b.items[0] is V.PENDING:
-                b.items = list(a.items)
+            pa = len(a.items) >= 1 and a.items[0] is V.PENDING
+            pb = len(b.items) >= 1 and b.items[0] is V.PENDING
+            if pa or pb:
+                if not getattr(self, 'assuming', 0) or (pa and pb) or \
+                        len((a if pa else b).items) != 1:
+                    raise EngineError('a trace is read before a postcondition has defined it')
+                # defining equation of a havocked trace (callee postcondition new == old + [...])
+                if pa:
+                    a.items = list(b.items)
+                else:
+                    b.items = list(a.items)
                 return True
             if len(a.items) != len(b.items):
                 return False
@@ -1230,6 +1236,12 @@ class Interp:
         if isinstance(obj, SVec):
             i = self.norm_index(idx, len(obj.slots))
             return self.select_chain(i, obj.slots)
+        from . import ext as _ext
+        if isinstance(obj, _ext.SExt):
+            f = _ext.GETITEM.get(obj.kind)
+            if f is None:
+                raise PyRaise(TypeError, ('not subscriptable',))
+            return f(self, obj, idx)
         if isinstance(obj, GList):
             raise EngineError('indexing a guarded list')
         if isinstance(obj, SObj):
